@@ -186,6 +186,16 @@ CHECKS = {
         "equals the dedicated rule part by part, zero delays equal KernelSTDP, and with update() applied the parameter follows the formula.",
         "scalar reward signals in the histories-as-batch runs; delays from a 4-value alphabet; tolerance 1e-5",
     ),
+    "C09": (
+        "model_checking", "DESIGN.md §3 C09",
+        "exhaustive pre/post (and postsynaptic-rate) history enumeration on every shipped trainer with the parts handed to the updater "
+        "compared, part by part, with the same-signed terms of the signed rule; probes for direction and bound routing",
+        "For STDP, triplet, MSTDP, MSTDPET, KernelSTDP, the six delay-adjusted rules and LinearHomeostasis (weight/bias/delay, +-plasticity, "
+        "targets above and below every observed rate) x four sign modes: after every step of every history (length 3-5) both parts are "
+        ">= 0, pos-neg equals the signed rule and each part equals the sum of the same-signed terms; causal/anti-causal pairs and reward "
+        "signs move the real weight in the documented direction; zero upper/lower bound probes leave exactly the other part applied.",
+        "same driver and tolerances as C08/C18; known finding: LinearHomeostasis' depressing part is non-positive (see known_findings.json)",
+    ),
 }
 
 PENDING_REASON = "check not built yet in this session (claimed in DESIGN.md; will move to checks when its exploration exists)"
